@@ -52,16 +52,19 @@ OUTV = "self._output_mesh.vertices"
 INF = "self.input_mesh.faces"
 
 
+class _AnchorGone(Exception):
+    """a private method the rules are anchored on does not exist under its name any more (merged / renamed by a refactoring)"""
+
+
 def run(ctx):
     ctx = hr.Gate(ctx)
-    f1_v1_faces_and_corners(ctx)
-    u1_merges(ctx)
-    m1_maps(ctx)
-    c1_cut_graph(ctx)
-    k1_spanning_tree_no_features(ctx)
-    k2_spanning_tree_with_features(ctx)
-    d1_dual_trees(ctx)
-    r1_region_tree(ctx)
+    for rule_fn, rid in ((f1_v1_faces_and_corners, "C16-F1"), (u1_merges, "C16-U1"), (m1_maps, "C16-M1"), (c1_cut_graph, "C16-C1"),
+                         (k1_spanning_tree_no_features, "C16-K1"), (k2_spanning_tree_with_features, "C16-K2"), (d1_dual_trees, "C16-D1"),
+                         (r1_region_tree, "C16-R1")):
+        try:
+            rule_fn(ctx)
+        except _AnchorGone as ex:
+            ctx.undecided(rid, ctx.site(CUT, CLS), f"the private method `{ex}` of the cutter the rule is written about is not found under this name", "")
     a1_ownership(getattr(ctx, "_ctx", ctx))        # a specific statement outside the cutter is the finding: not subject to the subset gate
 
 
@@ -74,6 +77,8 @@ def _absent(ctx, F, region, rule, site, construct, what):
 
 
 def _fn(ctx, name):
+    if not ctx.repo.has_func(CUT, f"{CLS}.{name}"):
+        raise _AnchorGone(name)
     return ctx.repo.func(CUT, f"{CLS}.{name}")
 
 
@@ -983,6 +988,16 @@ def _singular_container(ctx, F, e, at):
         return True
     if isinstance(e, ast.Name):
         d = F.definition(e.id, at)
+        if d is None and e.id in F.params:
+            # an optional parameter that defaults to None and is replaced under `<p> is None`: on the default call it is that value
+            fa = F.orig.args
+            dflt = {x_.arg: d_ for x_, d_ in zip((fa.posonlyargs + fa.args)[len(fa.posonlyargs + fa.args) - len(fa.defaults):], fa.defaults)}
+            dflt.update({x_.arg: d_ for x_, d_ in zip(fa.kwonlyargs, fa.kw_defaults) if d_ is not None})
+            if hr.is_none(dflt.get(e.id)):
+                binds = [(st_, v_) for st_ in au.stmts(F.fn.body) for nm_, v_ in sym.split_assign(st_) if nm_ == e.id]
+                if len(binds) == 1 and any(isinstance(c_, ast.Compare) and isinstance(c_.ops[0], ast.Is) and hr.is_none(c_.comparators[0]) and p_
+                                           and isinstance(c_.left, ast.Name) and c_.left.id == e.id for c_, p_ in F.conds(binds[0][0])):
+                    d = binds[0][1]
         if isinstance(d, ast.Call) and au.call_tail(d) in ("set", "frozenset", "list", "tuple") and len(d.args) == 1 and F.table_key(d.args[0], at) == "self.singularities":
             return True
         return None
@@ -1649,6 +1664,34 @@ def k1_spanning_tree_no_features(ctx):
             elif len(recs) == 1:
                 ctx.fail(R, S(sel), "a candidate is not selected exactly when its end points are not yet connected (record + union under one test)",
                          "the record of the selected candidate and the union are not executed under the same test")
+            elif not recs:
+                # no list of selected candidates: the edges of a path are flagged as soon as the path is selected (same test as the union)
+                inner_ = [s_ for s_ in au.stmts(sel.body) if isinstance(s_, ast.For) and {(hr.key(e), p) for e, p in F.conds(s_, stop=sel)} == ukey]
+                fused = None
+                if len(inner_) == 1:
+                    P_ = _consecutive_pairs(F, inner_[0])
+                    st_ = [(s_, tg_, v_) for s_, tg_, v_ in hr.item_stores(inner_[0]) if v_ is not None and au.const(v_) is True]
+                    if isinstance(P_, tuple):
+                        fused = P_[1]
+                    elif P_ is not None and len(st_) == 1 and not F.conds(st_[0][0], stop=inner_[0]):
+                        Pr_ = P_
+                        if isinstance(Pr_, ast.Name):
+                            d_ = F.definition(Pr_.id, inner_[0])
+                            Pr_ = d_ if d_ is not None else Pr_
+                        key_ = F.resolve(st_[0][1].slice, st_[0][0], keep=("self",))
+                        from_D_ = isinstance(Pr_, ast.Subscript) and isinstance(Pr_.value, ast.Name) and F.root(Pr_.value.id, inner_[0]) == D
+                        cand_key = sel.target.elts[-1] if isinstance(sel.target, ast.Tuple) else sel.target
+                        right_key = from_D_ and (hr.same(Pr_.slice, cand_key) or
+                                                 (isinstance(Pr_.slice, ast.Tuple) and {au.src(x_) for x_ in Pr_.slice.elts} == {au.src(a_) for a_ in u.args}))
+                        if right_key and isinstance(key_, ast.Call) and au.call_tail(key_) == "edge_id" and len(key_.args) == 2:
+                            fused = True
+                if fused is True:
+                    ctx.ok(R, S(sel), "selected iff not connected; the edges of the path are flagged with the union")
+                elif isinstance(fused, str):
+                    ctx.fail(R, site, "the edges of the selected paths are not all flagged (every consecutive pair of every selected path, unconditionally)",
+                             "an unflagged edge of the spanning tree may be crossed by the dual tree: the singular vertices are then no longer joined by cuts: " + fused)
+                else:
+                    ctx.undecided(R, S(sel), "the record of the selected candidates is not recognised", "")
             else:
                 ctx.undecided(R, S(sel), "the record of the selected candidates is not recognised", "")
         elif len(g) == 1 and same_pair and g[0][1] and not rest:
@@ -1701,6 +1744,63 @@ def k1_spanning_tree_no_features(ctx):
     else:
         ctx.fail(R, site, "the edges of the selected paths are not all flagged (every consecutive pair of every selected path, unconditionally)",
                  "an unflagged edge of the spanning tree may be crossed by the dual tree: the singular vertices are then no longer joined by cuts: " + verdict)
+
+
+def _k2_mark_on_push(F, fn, w, Q, v, closest):
+    """for e in vertex_to_edges(v): [e in feature_edges] nv = other_edge_end(e, v) ; [not visited[nv]] visited[nv] = True ; flags[e] = True ; Q.append(nv)
+    with every landing point marked and queued (unconditionally) before the loop.  First discovery = first pop in a FIFO search: same tree as marking at the pop."""
+    pushes = [c for c in au.calls(w) if isinstance(c.func, ast.Attribute) and isinstance(c.func.value, ast.Name) and c.func.value.id == Q and c.func.attr == "append" and len(c.args) == 1]
+    if len(pushes) != 1 or not isinstance(pushes[0].args[0], ast.Name):
+        return False
+    c = pushes[0]
+    nv = pushes[0].args[0].id
+    loops = [a for a in au.ancestors(c) if isinstance(a, ast.For) and F.inside(a, w)]
+    if len(loops) != 1 or not isinstance(loops[0].target, ast.Name):
+        return False
+    lp = loops[0]
+    e = lp.target.id
+    it = lp.iter
+    if not (isinstance(it, ast.Call) and au.call_tail(it) == "vertex_to_edges" and len(it.args) == 1 and isinstance(it.args[0], ast.Name) and F.root(it.args[0].id, lp) == v):
+        return False
+    nvd = F.definition(nv, c)
+    if not (isinstance(nvd, ast.Call) and au.call_tail(nvd) == "other_edge_end" and len(nvd.args) == 2 and
+            sorted(F.root(a.id, c) if isinstance(a, ast.Name) else "?" for a in nvd.args) == sorted([e, v])):
+        return False
+    conds = F.conds(c, stop=w)
+    VIS = None
+    feat = False
+    for t, p in conds:
+        ft = hr.flag_test(t, p)
+        if isinstance(t, ast.Compare) and isinstance(t.ops[0], ast.In) and isinstance(t.left, ast.Name) and t.left.id == e and "feature_edges" in (F.table_key(t.comparators[0], c) or ""):
+            if not p:
+                return False
+            feat = True
+        elif ft and isinstance(ft[0], ast.Name) and isinstance(ft[1], ast.Name) and ft[1].id == nv and ft[2] is False:
+            VIS = ft[0].id
+        else:
+            return False
+    if not feat or VIS is None:
+        return False
+    ckey = {(hr.key(t), p) for t, p in conds}
+    marks = [st for st in au.stmts(lp.body) if (fm := hr.flag_mark(st)) and isinstance(fm[0], ast.Name) and fm[0].id == VIS and isinstance(fm[1], ast.Name) and fm[1].id == nv
+             and fm[2] is True and {(hr.key(t), p) for t, p in F.conds(st, stop=w)} == ckey]
+    flags = [(st, tg, val) for st, tg, val in hr.item_stores(lp) if val is not None and au.const(val) is True and isinstance(tg.value, ast.Name) and tg.value.id != VIS
+             and isinstance(tg.slice, ast.Name) and F.root(tg.slice.id, st) == e and {(hr.key(t), p) for t, p in F.conds(st, stop=w)} == ckey]
+    if len(marks) != 1 or len(flags) != 1:
+        return False
+    # landing points: marked and queued before the loop, unconditionally, for every element of `closest`
+    seeds = [c2 for c2 in au.calls(fn) if isinstance(c2.func, ast.Attribute) and isinstance(c2.func.value, ast.Name) and c2.func.value.id == Q and c2.func.attr == "append"
+             and F.before(c2, w) and not F.inside(c2, w)]
+    if len(seeds) != 1 or not isinstance(seeds[0].args[0], ast.Name):
+        return False
+    sl = [a for a in au.ancestors(seeds[0]) if isinstance(a, ast.For)]
+    if not sl or not any(isinstance(n, ast.Name) and F.root(n.id, sl[0]) == F.root(closest, sl[0]) for n in ast.walk(sl[0].iter)) or F.conds(seeds[0], stop=sl[0]):
+        return False
+    smarks = [st for st in au.stmts(sl[0].body) if (fm := hr.flag_mark(st)) and isinstance(fm[0], ast.Name) and F.root(fm[0].id, st) == F.root(VIS, w)
+              and isinstance(fm[1], ast.Name) and fm[1].id == seeds[0].args[0].id and fm[2] is True and not F.conds(st, stop=sl[0])]
+    iv, found = F.initial_values(VIS, sl[0])
+    all_false = found and iv and all(isinstance(x, ast.Constant) and x.value is False for x in iv)
+    return len(smarks) == 1 and bool(all_false) and not F.opaque(w)
 
 
 def k2_spanning_tree_with_features(ctx):
@@ -1756,6 +1856,15 @@ def k2_spanning_tree_with_features(ctx):
     pst = au.enclosing_stmt(pops[0])
     pair = [x.id for x in pst.targets[0].elts] if isinstance(pst, ast.Assign) and isinstance(pst.targets[0], ast.Tuple) and len(pst.targets[0].elts) == 2 \
         and all(isinstance(x, ast.Name) for x in pst.targets[0].elts) else None
+    if pair is None and isinstance(pst, ast.Assign) and len(pst.targets) == 1 and isinstance(pst.targets[0], ast.Name) and pst.value is pops[0] and fifo:
+        # breadth-first search that marks a vertex when it is discovered: entries are plain vertices, the tree edge is flagged at the discovery
+        v1 = pst.targets[0].id
+        ok_ = _k2_mark_on_push(F, fn, w, Q, v1, closest)
+        if ok_:
+            ctx.ok(R, site, "BFS tree of the feature graph flagged (vertices marked when discovered)")
+        else:
+            ctx.undecided(R, S(w), "the feature-graph search marks vertices when they are discovered in a form the rule does not recognise", "")
+        return
     if pair is None:
         ctx.undecided(R, S(w), "the entry popped by the feature-graph search is not a (vertex, previous) pair", "")
         return
@@ -1838,7 +1947,17 @@ def d1_dual_trees(ctx):
     from . import c09
     sub = _Renamed(ctx, {"C09-D1": "C16-D1", "C09-D2": "C16-D1", "C09-D3": "C16-D1", "C09-D4": "C16-D1", "C09-Q1": "C16-D1"})
     item = c09.q1_priority_queue(_Renamed(ctx, {k: "C16-D1" for k in c09.RULES}))
-    for name in DUAL:
+    # the dual searches are found by role: the methods of the cutter that drive a PriorityQueue (the historical names first)
+    names = [n_ for n_ in DUAL if ctx.repo.has_func(CUT, f"{CLS}.{n_}")]
+    if len(names) < len(DUAL):
+        cls_node = ctx.repo.cls(CUT, CLS)
+        for m_ in cls_node.body:
+            if isinstance(m_, ast.FunctionDef) and m_.name not in names and any(isinstance(c_, ast.Call) and au.call_tail(c_) == "PriorityQueue" for c_ in ast.walk(m_)):
+                names.append(m_.name)
+    if not names:
+        ctx.undecided("C16-D1", ctx.site(CUT, CLS), "no method of the cutter drives a PriorityQueue: the dual search is not found", "")
+        return
+    for name in names:
         fn0, F = _flat(ctx, name)
         fn = F.fn
         site = ctx.site(CUT, fn0)
